@@ -150,6 +150,58 @@ func c19Unmodelled(d []byte) bool {
 	return true
 }
 
+// what the Go parser sees in a BMP message of type 0 / 2 / 3, in the vocabulary of the Lean model
+// (Framing.Bmp.parseMsg2): embedded BGP messages as octets
+func c19Msg2Str(m *BMPMessage, opts []*bgp.MarshallingOption) string {
+	ph := &m.PeerHeader
+	s0 := math.Floor(ph.Timestamp)
+	sec, usec := uint64(s0), uint64(math.Round((ph.Timestamp-s0)*1e6))
+	hx := func(b []byte) string {
+		if len(b) == 0 {
+			return "-"
+		}
+		return hex.EncodeToString(b)
+	}
+	var sb strings.Builder
+	fmt.Fprintf(&sb, "ok %d %d %d peer %d %d %d %s %d %s %d %d ", m.Header.Version, m.Header.Length, m.Header.Type, ph.PeerType, ph.Flags, ph.PeerDistinguisher,
+		hx(ph.PeerAddress.AsSlice()), ph.PeerAS, hx(ph.PeerBGPID.AsSlice()), sec, usec)
+	info := func(l []BMPInfoTLVInterface) {
+		fmt.Fprintf(&sb, "%d", len(l))
+		for _, t := range l {
+			switch x := t.(type) {
+			case *BMPInfoTLVString:
+				fmt.Fprintf(&sb, " %d %s", x.Type, hx([]byte(x.Value)))
+			case *BMPInfoTLVUnknown:
+				fmt.Fprintf(&sb, " %d %s", x.Type, hx(x.Value))
+			}
+		}
+	}
+	switch b := m.Body.(type) {
+	case *BMPRouteMonitoring:
+		u, _ := b.BGPUpdate.Serialize(opts...)
+		sb.WriteString("rm " + hx(u))
+	case *BMPPeerUpNotification:
+		s, _ := b.SentOpenMsg.Serialize()
+		r, _ := b.ReceivedOpenMsg.Serialize()
+		fmt.Fprintf(&sb, "up %s %d %d %s %s info ", hx(b.LocalAddress.AsSlice()), b.LocalPort, b.RemotePort, hx(s), hx(r))
+		info(b.Info)
+	case *BMPPeerDownNotification:
+		switch b.Reason {
+		case 1, 3:
+			nb, _ := b.BGPNotification.Serialize()
+			fmt.Fprintf(&sb, "downmsg %d %s", b.Reason, hx(nb))
+		case 6:
+			sb.WriteString("downinfo ")
+			info(b.Info)
+		default:
+			fmt.Fprintf(&sb, "down %d %s", b.Reason, hx(b.Data))
+		}
+	default:
+		return "?"
+	}
+	return sb.String()
+}
+
 func c19MsgStr(d []byte) string {
 	m, err := ParseBMPMessage(d)
 	if c19Unmodelled(d) {
@@ -627,6 +679,40 @@ func TestVerifC19(t *testing.T) {
 			return "ok"
 		})
 		o.stat("message_"+label, 1)
+		if b != nil && (m.Header.Type == BMP_MSG_ROUTE_MONITORING || m.Header.Type == BMP_MSG_PEER_UP_NOTIFICATION || m.Header.Type == BMP_MSG_PEER_DOWN_NOTIFICATION) {
+			if pm, err := ParseBMPMessage(b); err == nil { // the model reads the same message
+				o.ask(c19Msg2Str(pm, nil), "bmp.msg2 %s", c19Hex(b))
+				o.stat("model_msg2_asks", 1)
+				// and the model serialises the value the constructor was given
+				body := b[BMP_HEADER_SIZE+BMP_PEER_HEADER_SIZE:]
+				switch x := m.Body.(type) {
+				case *BMPRouteMonitoring:
+					u, _ := x.BGPUpdate.Serialize()
+					o.ask(c19Hex(body), "bmp.body2ser rm %s", c19Hex(u))
+				case *BMPPeerUpNotification:
+					if len(x.Info) == 0 {
+						la := make([]byte, 16)
+						if x.LocalAddress.Is4() {
+							copy(la[12:], x.LocalAddress.AsSlice())
+						} else {
+							copy(la, x.LocalAddress.AsSlice())
+						}
+						sn, _ := x.SentOpenMsg.Serialize()
+						rc, _ := x.ReceivedOpenMsg.Serialize()
+						o.ask(c19Hex(body), "bmp.body2ser up %s %d %d %s %s", c19Hex(la), x.LocalPort, x.RemotePort, c19Hex(sn), c19Hex(rc))
+					}
+				case *BMPPeerDownNotification:
+					switch x.Reason {
+					case 1, 3:
+						nb, _ := x.BGPNotification.Serialize()
+						o.ask(c19Hex(body), "bmp.body2ser downmsg %d %s", x.Reason, c19Hex(nb))
+					case 6:
+					default:
+						o.ask(c19Hex(body), "bmp.body2ser down %d %s", x.Reason, c19Hex(x.Data))
+					}
+				}
+			}
+		}
 		if res != "ok" {
 			o.fail("bmp-message-roundtrip:"+label+":"+strings.SplitN(res, ":", 2)[0], map[string]any{"kind": label, "bytes": c19Hex(b), "outcome": res[:min(len(res), 600)]})
 		}
